@@ -142,6 +142,8 @@ thread_local! {
     static QUIET: RefCell<bool> = const { RefCell::new(false) };
     static EXPLORING: std::cell::Cell<bool> = const { std::cell::Cell::new(true) };
     static MORE: std::cell::Cell<bool> = const { std::cell::Cell::new(false) };
+    static PUMP_TARGET: RefCell<Option<String>> = const { RefCell::new(None) };
+    static PUMP_FOUND: std::cell::Cell<bool> = const { std::cell::Cell::new(false) };
     static LAST_PANIC: RefCell<Option<String>> = const { RefCell::new(None) };
     static PANIC_LOG: RefCell<Vec<String>> = const { RefCell::new(Vec::new()) };
 }
@@ -157,6 +159,18 @@ pub fn report_violation(msg: impl Into<String>) {
 /// tasks run until they block). Only the concurrent window of a scenario is
 /// explored; set-up and final checks are not part of the schedule space.
 pub fn exploring(on: bool) { EXPLORING.with(|e| e.set(on)); }
+
+/// Deterministic phases only: hand the processor to the runnable task (OS
+/// thread of the code under test) with the given name and let it run until
+/// it blocks; control then returns to the lowest-id runnable task (the
+/// harness). Returns false if no runnable task has that name (nothing to do).
+pub fn pump(name: &str) -> bool {
+    PUMP_TARGET.with(|t| *t.borrow_mut() = Some(name.to_string()));
+    PUMP_FOUND.with(|f| f.set(false));
+    shuttle::thread::yield_now();
+    PUMP_TARGET.with(|t| *t.borrow_mut() = None);
+    PUMP_FOUND.with(|f| f.get())
+}
 
 /// Repeat mode (`Cfg::repeat`): the scenario says whether another execution
 /// (under the default schedule) is wanted.
@@ -280,12 +294,25 @@ impl Scheduler for DfsSched {
         if !EXPLORING.with(|e| e.get()) {
             // deterministic phase: exactly one choice
             let cur = current.map(usize::from);
-            let pick = match cur {
-                Some(c) if ids.contains(&c) && !is_yielding => c,
-                Some(c) => {
+            let target = PUMP_TARGET.with(|t| t.borrow_mut().take());
+            let named = target.and_then(|n| {
+                runnable
+                    .iter()
+                    .find(|t| t.name().as_deref() == Some(n.as_str()))
+                    .map(|t| usize::from(t.id()))
+            });
+            let pick = match (named, cur) {
+                (Some(t), _) => {
+                    PUMP_FOUND.with(|f| f.set(true));
+                    t
+                }
+                (None, Some(c)) if ids.contains(&c) && !is_yielding => c,
+                // a yielding task hands over to the next task (cyclic)
+                (None, Some(c)) if ids.contains(&c) => {
                     *ids.iter().find(|x| **x > c).unwrap_or(&ids[0])
                 }
-                None => ids[0],
+                // the running task blocked or finished: lowest id
+                _ => ids[0],
             };
             ids = vec![pick];
         } else if let Some(c) = current.map(usize::from) {
@@ -624,4 +651,105 @@ pub fn run_default<T: Send + 'static>(
         msg: "scenario produced no result".into(),
         schedule: vec![],
     })
+}
+
+/// Run `body` again and again, one shuttle execution (default schedule) per
+/// call, until it returns false. `on_failure` is told about executions that
+/// died (deadlock, step cap, escaped panic) and returns whether to go on.
+pub fn repeat(
+    body: Arc<dyn Fn() -> bool + Send + Sync>,
+    on_failure: Arc<dyn Fn(&Failure) -> bool + Send + Sync>,
+) -> Outcome {
+    let mut cfg = Cfg::new(0);
+    cfg.repeat = true;
+    cfg.max_failures = 10_000;
+    cfg.max_steps = 5_000_000;
+    cfg.on_failure = Some(Arc::new(move |f| {
+        let more = on_failure(f);
+        set_more(more);
+    }));
+    explore(
+        &cfg,
+        Arc::new(move || {
+            let more = body();
+            set_more(more);
+        }),
+    )
+}
+
+impl Outcome {
+    pub fn to_json(&self) -> serde_json::Value {
+        serde_json::json!({
+            "executions": self.stats.executions,
+            "steps": self.stats.steps,
+            "max_depth": self.stats.max_depth,
+            "choice_points": self.stats.choice_points,
+            "outcomes": self.stats.outcomes.len(),
+            "sigs": self.stats.sigs.len(),
+            "cap_hit": self.stats.cap_hit,
+            "machinery_error": self.machinery_error,
+            "failures": self.failures.iter().take(300).map(|f| serde_json::json!({
+                "kind": format!("{:?}", f.kind),
+                "msg": f.msg,
+                "schedule": f.schedule.iter().map(|(a, b)| serde_json::json!([a, b])).collect::<Vec<_>>(),
+            })).collect::<Vec<_>>(),
+        })
+    }
+}
+
+/// Outcome of a scenario explored in a child process.
+#[derive(Debug, Clone, Default)]
+pub struct Summary {
+    pub executions: u64,
+    pub steps: u64,
+    pub max_depth: usize,
+    pub outcomes: usize,
+    pub sigs: u64,
+    pub cap_hit: Option<String>,
+    pub machinery_error: Option<String>,
+    pub failures: Vec<Failure>,
+}
+
+impl Summary {
+    pub fn from_json(v: &serde_json::Value) -> Self {
+        let kind = |s: &str| match s {
+            "Oracle" => FailKind::Oracle,
+            "Deadlock" => FailKind::Deadlock,
+            "StepCap" => FailKind::StepCap,
+            _ => FailKind::Panic,
+        };
+        Self {
+            executions: v["executions"].as_u64().unwrap_or(0),
+            steps: v["steps"].as_u64().unwrap_or(0),
+            max_depth: v["max_depth"].as_u64().unwrap_or(0) as usize,
+            outcomes: v["outcomes"].as_u64().unwrap_or(0) as usize,
+            sigs: v["sigs"].as_u64().unwrap_or(0),
+            cap_hit: v["cap_hit"].as_str().map(str::to_string),
+            machinery_error: v["machinery_error"].as_str().map(str::to_string),
+            failures: v["failures"]
+                .as_array()
+                .map(|a| {
+                    a.iter()
+                        .map(|f| Failure {
+                            kind: kind(f["kind"].as_str().unwrap_or("")),
+                            msg: f["msg"].as_str().unwrap_or("").to_string(),
+                            schedule: f["schedule"]
+                                .as_array()
+                                .map(|s| {
+                                    s.iter()
+                                        .map(|p| {
+                                            (
+                                                p[0].as_u64().unwrap_or(0) as usize,
+                                                p[1].as_u64().unwrap_or(0) as usize,
+                                            )
+                                        })
+                                        .collect()
+                                })
+                                .unwrap_or_default(),
+                        })
+                        .collect()
+                })
+                .unwrap_or_default(),
+        }
+    }
 }
